@@ -8,6 +8,9 @@ values) and everything **further below** (`deep`), where the objects are
 
 * `root i`  – the object the caller passed as parameter `i` itself,
 * `inner i` – everything reachable strictly below that object (lumped),
+* `rec i`   – a *record* (Mod, Interval, Fragment, …) the caller handed in as / below parameter `i`, together with what it
+               holds: the translator casts a value to this object (`asRec`) where its static type is a record type.  A write
+               to it is a write to parameter `i`; for the no-shared-state clause a record handed in may be handed back,
 * `glob g`  – a process-wide object (module-level table, database, the module random generator),
 * `loc s`   – an object allocated by the call itself (allocation site `s`).
 
@@ -26,14 +29,27 @@ abbrev Var := Nat
 inductive Obj where
   | root (i : Nat)
   | inner (i : Nat)
+  | rec (i : Nat)
   | glob (g : Nat)
   | loc (s : Nat)
   deriving DecidableEq, Repr, Inhabited
+
+/-- the record view of an object: what the caller handed in becomes "a record of parameter i" -/
+def toRec : Obj → Obj
+  | .root i => .rec i
+  | .inner i => .rec i
+  | o => o
+
+/-- records and other objects below the same parameter may be the same concrete object -/
+def norm : Obj → Obj
+  | .rec i => .inner i
+  | o => o
 
 /-- where a callee's return value / stored links come from, relative to the callee's parameters -/
 inductive Src where
   | top (j : Nat)      -- the objects argument `j` may denote
   | below (j : Nat)    -- the objects argument `j` may hold or reach
+  | recs (j : Nat)     -- argument `j` and what is below it, seen as records
   | fresh              -- an object allocated by the callee
   | glob (g : Nat)
   deriving DecidableEq, Repr, Inhabited
@@ -53,6 +69,7 @@ inductive Stmt where
   | global  (x : Var) (g : Nat)                 -- x refers to the process-wide object g
   | alias   (x : Var) (ys : List Var)           -- x = y / x = y or z / x = a if c else b
   | elem    (x : Var) (y : Var)                 -- x = y.attr / y[k] / for x in y / y.pop()
+  | asRec   (x : Var) (y : Var)                 -- x = y where the static type of y is a record type (Mod, Interval, Fragment ...)
   | fresh   (x : Var)                           -- deep copy, literal, parse result: a new object sharing nothing
   | shallow (x : Var) (ys : List Var)           -- list(y), dict(y), sorted(y), y[:] : new container, same elements
   | pack    (x : Var) (ys : List Var)           -- [a, b], (a, b), C(a, b): new container holding the objects themselves
@@ -75,9 +92,12 @@ def union (a b : List Obj) : List Obj := a ++ b.filter (fun o => !(a.contains o)
 
 def sub (a b : List Obj) : Bool := a.all (fun o => b.contains o)
 
-def overlaps (a b : List Obj) : Bool := a.any (fun o => b.contains o)
+/-- do the two sets share an object (records and non-records of the same parameter count as possibly the same) -/
+def overlaps (a b : List Obj) : Bool := a.any (fun o => b.any (fun o' => norm o == norm o'))
 
 def Pts.get (P : Pts) (x : Var) : Cell := P.getD x {}
+
+def Cell.map (f : Obj → Obj) (c : Cell) : Cell := { top := c.top.map f, kids := c.kids.map f, deep := c.deep.map f }
 
 def Cell.join (d c : Cell) : Cell := { top := union d.top c.top, kids := union d.kids c.kids, deep := union d.deep c.deep }
 
@@ -107,6 +127,7 @@ def argCell (P : Pts) (args : List (Option Var)) (j : Nat) : Cell :=
 def sel (P : Pts) (args : List (Option Var)) (ret : Var) : Src → List Obj
   | .top j => (argCell P args j).top
   | .below j => (argCell P args j).kids ++ (argCell P args j).deep
+  | .recs j => ((argCell P args j).top ++ ((argCell P args j).kids ++ (argCell P args j).deep)).map toRec
   | .fresh => [.loc ret]
   | .glob g => [.glob g]
 
@@ -118,6 +139,7 @@ def step (S : List Summary) : Stmt → Pts → Pts
   | .global x g, P => P.add x { top := [.glob g], kids := [.glob g], deep := [.glob g] }
   | .alias x ys, P => ys.foldl (fun Q y => Q.add x (P.get y)) P
   | .elem x y, P => P.add x { top := (P.get y).kids, kids := (P.get y).deep, deep := (P.get y).deep }
+  | .asRec x y, P => P.add x ((P.get y).map toRec)
   | .fresh x, P => P.add x { top := [.loc x] }
   | .shallow x ys, P =>
     P.add x { top := [.loc x], kids := ys.flatMap (fun y => (P.get y).kids), deep := ys.flatMap (fun y => (P.get y).deep) }
@@ -213,6 +235,7 @@ def closedStmt (S : List Summary) (s : Stmt) (A : Pts) : Bool :=
   | .global x g => cellSub { top := [.glob g], kids := [.glob g], deep := [.glob g] } (A.get x)
   | .alias x ys => ys.all (fun y => cellSub (A.get y) (A.get x))
   | .elem x y => cellSub { top := (A.get y).kids, kids := (A.get y).deep, deep := (A.get y).deep } (A.get x)
+  | .asRec x y => cellSub ((A.get y).map toRec) (A.get x)
   | .fresh x => cellSub { top := [.loc x] } (A.get x)
   | .shallow x ys =>
     cellSub { top := [.loc x], kids := ys.flatMap (fun y => (A.get y).kids), deep := ys.flatMap (fun y => (A.get y).deep) }
@@ -236,6 +259,13 @@ def closedB (S : List Summary) (p : List Stmt) (A : Pts) : Bool := p.all (fun s 
 def paramOf : Obj → Option Nat
   | .root i => some i
   | .inner i => some i
+  | .rec i => some i
+  | _ => none
+
+/-- for the no-shared-state clause: the caller's containers and annotations (records handed in are exempt) -/
+def shareParamOf : Obj → Option Nat
+  | .root i => some i
+  | .inner i => some i
   | _ => none
 
 def globOf : Obj → Option Nat
@@ -250,6 +280,15 @@ def mayWriteIn (S : List Summary) (p : List Stmt) (A : Pts) : List Nat :=
 def mayWriteGlobalIn (S : List Summary) (p : List Stmt) (A : Pts) : List Nat :=
   dedup ((writeSet S p A).filterMap globOf)
 
+/-- everything the name `ret` may denote, hold or reach -/
+def cellObjs (c : Cell) : List Obj := c.top ++ (c.kids ++ c.deep)
+
+/-- parameters whose object, or a container / annotation below it, the result may be or contain -/
+def mayShareIn (A : Pts) (ret : Nat) : List Nat := dedup ((cellObjs (A.get ret)).filterMap shareParamOf)
+
+/-- process-wide objects the result may be or contain -/
+def mayShareGlobalIn (A : Pts) (ret : Nat) : List Nat := dedup ((cellObjs (A.get ret)).filterMap globOf)
+
 /-- the same with the table computed here by `fuel` passes -/
 def mayWrite (S : List Summary) (p : List Stmt) (fuel : Nat) : List Nat := mayWriteIn S p (analyse S p fuel)
 
@@ -260,14 +299,21 @@ def mayWriteGlobal (S : List Summary) (p : List Stmt) (fuel : Nat) : List Nat :=
 def srcOfObj : Obj → Src
   | .root j => .top j
   | .inner j => .below j
+  | .rec j => .recs j
   | .glob g => .glob g
   | .loc _ => .fresh
+
+/-- which level of parameter `j` a write to the object touches (a record may be the argument itself or below it) -/
+def writeLevels : Obj → List (Nat × Bool)
+  | .root j => [(j, false)]
+  | .inner j => [(j, true)]
+  | .rec j => [(j, false), (j, true)]
+  | _ => []
 
 /-- the summary a body induces; convention: parameter `j` is name `j`, the result is name `ret` -/
 def summarize (S : List Summary) (p : List Stmt) (A : Pts) (nparams ret : Nat) : Summary :=
   let w := writeSet S p A
-  { writes := dedup (w.filterMap (fun o => match o with
-                | .root j => some (j, false) | .inner j => some (j, true) | _ => none))
+  { writes := dedup (w.flatMap writeLevels)
     globals := dedup (w.filterMap globOf)
     retTop := dedup ((A.get ret).top.map srcOfObj)
     retKids := dedup ((A.get ret).kids.map srcOfObj)
